@@ -145,7 +145,10 @@ def run(chk):
            expect="no `x[start].remove(start)` when the library does not keep the start node (use discard / a membership test)")
     # ---- D: decomposition -------------------------------------------------
     P = Package(repo)
+    from ..corpus import corpus
+
     fams = list(deep_circuits()) + list(one_gate_circuits(max_arity=4, types=["and", "nor", "xor", "not"])) + list(two_level_circuits(limit=30 if chk.tier == "quick" else 150))
+    fams += [(f"corpus::{k}", c) for k, tags, c in corpus(chk.tier, exclude=("x", "names"))]
     n = 0
     multi_out = [
         ("shared-logic-3-outputs", build({"a": ("input", []), "b": ("input", []), "c": ("input", []), "g0": ("and", ["a", "b"]), "g1": ("or", ["g0", "c"]), "g2": ("nand", ["g1", "a"]),
